@@ -47,7 +47,22 @@ impl<const P: u128> ops::Mul<FiniteField<P>> for FiniteField<P> {
     type Output = FiniteField<P>;
 
     fn mul(self, rhs: FiniteField<P>) -> Self::Output {
-        FiniteField::new((self.v * rhs.v) % P)
+        match self.v.checked_mul(rhs.v) {
+            Some(prod) => FiniteField::new(prod % P),
+            // the product of two residues of a prime above 2^64 does not fit in
+            // 128 bits: multiply by doubling, reducing at every step
+            None => {
+                let (mut a, mut b, mut acc) = (self.v, rhs.v, 0u128);
+                while b > 0 {
+                    if b & 1 == 1 {
+                        acc = (acc + a) % P;
+                    }
+                    a = (a + a) % P;
+                    b >>= 1;
+                }
+                FiniteField::new(acc)
+            }
+        }
     }
 }
 
